@@ -26,6 +26,20 @@ type G struct {
 	funcs   []fnInfo       // callable script functions in scope (lexically)
 	defined []map[string]bool
 	allowTryControl bool
+	nestedFuncs []nestedFunc
+}
+
+type nestedFunc struct {
+	name  string
+	depth int
+}
+
+func isAbruptAny(s Stmt) bool {
+	switch s.(type) {
+	case *Return, *Throw, *Break, *Continue:
+		return true
+	}
+	return false
 }
 
 type fnInfo struct {
@@ -272,8 +286,18 @@ func (g *G) maybeEmpty(n int) int {
 func (g *G) block(c ctx, n int) []Stmt {
 	var ss []Stmt
 	for i := 0; i < n && g.budget > 0; i++ {
+		mark := len(g.nestedFuncs)
 		st := g.stmt(c)
 		ss = append(ss, st...)
+		// functions declared inside nested blocks of this statement are not visible after it
+		if len(g.nestedFuncs) > mark && (len(st) == 0 || !isAbruptAny(st[len(st)-1])) {
+			for _, nf := range g.nestedFuncs[mark:] {
+				if nf.depth > c.depth && g.R.Intn(2) == 0 {
+					ss = append(ss, &ExprStmt{X: &Call{Fn: "rd", Args: []Expr{&StrLit{V: nf.name}, &Coalesce{L: &Name{N: nf.name}, R: &StrLit{V: "<undef>"}}}}})
+				}
+			}
+			g.nestedFuncs = g.nestedFuncs[:mark]
+		}
 		if len(st) > 0 {
 			if _, abrupt := st[len(st)-1].(*Break); abrupt {
 				break
@@ -335,6 +359,12 @@ func (g *G) stmt(c ctx) []Stmt {
 		add(1+wc, func() []Stmt { return g.mapIter(c) })
 	}
 	add(1+7*we, func() []Stmt { return g.deferStmt(c) })
+	if !deep {
+		add(1+wc, func() []Stmt { return g.strayControl(c) })
+		add(1+2*ws, func() []Stmt { return g.escapingClosure(c) })
+		add(1+3*we, func() []Stmt { return g.deferLocalClosureTwice(c) })
+		add(1+3*we, func() []Stmt { return g.callbackThrows(c) })
+	}
 	if c.inLoop && (!c.tryBrk || g.allowControlInTry()) {
 		add(2+3*wc+ws, func() []Stmt { g.feat("break"); return []Stmt{&Break{}} })
 		add(2+3*wc+ws, func() []Stmt { g.feat("continue"); return []Stmt{&Continue{}} })
@@ -359,6 +389,108 @@ func (g *G) stmt(c ctx) []Stmt {
 		r -= ch.w
 	}
 	return nil
+}
+
+// strayControl: a function whose body executes break/continue outside any loop of
+// its own, called as a plain statement from inside a loop of the caller: the
+// caller's loop must not be steered by it
+func (g *G) strayControl(c ctx) []Stmt {
+	g.feat("stray-break-in-callee")
+	fn, cnt := g.fresh("sb"), g.fresh("n")
+	var ctl Stmt = &Break{}
+	if g.R.Intn(2) == 0 {
+		ctl = &Continue{}
+	}
+	params := []string{}
+	var args []Expr
+	if g.R.Intn(3) == 0 {
+		params = []string{"q0", "rest"}
+		args = []Expr{&IntLit{V: 1}, &IntLit{V: 2}}
+	}
+	f := &FuncLit{Name: fn, Params: params, Variadic: len(params) > 0, Body: []Stmt{&ExprStmt{X: g.p()}, ctl, &ExprStmt{X: g.p()}, &Return{Exprs: []Expr{&IntLit{V: 1}}}}}
+	loop := &CFor{Init: &Assign{LHS: []Expr{&Name{N: cnt}}, RHS: []Expr{&IntLit{V: 0}}},
+		Cond: &Binary{Op: "<", L: &Name{N: cnt}, R: &IntLit{V: 2}}, Post: &OpAssign{Target: &Name{N: cnt}, Op: "+"},
+		Body: []Stmt{&ExprStmt{X: g.p()}, &ExprStmt{X: &Call{Fn: fn, Args: args}}, &ExprStmt{X: g.p()}}}
+	return []Stmt{&ExprStmt{X: f}, loop, &ExprStmt{X: g.p()}}
+}
+
+// escapingClosure: an invocation stores a closure over its parameters/locals in
+// an outer name and then fails; the caller catches the error, the function is
+// called again, and the first closure must still see its own invocation's values
+func (g *G) escapingClosure(c ctx) []Stmt {
+	g.feat("closure-escapes-failing-invocation")
+	fn, h1, h2 := g.fresh("ef"), g.fresh("eh"), g.fresh("eh")
+	holder := &Name{N: "ehold"}
+	body := []Stmt{
+		&VarStmt{Names: []string{"loc"}, Exprs: []Expr{&Binary{Op: "*", L: &Name{N: "q0"}, R: &IntLit{V: 10}}}},
+		&Assign{LHS: []Expr{holder}, RHS: []Expr{&FuncLit{Body: []Stmt{&Return{Exprs: []Expr{&Name{N: "q0"}, &Name{N: "loc"}}}}}}},
+		&If{Cond: &Binary{Op: ">", L: &Name{N: "q1"}, R: &IntLit{V: 0}}, Then: []Stmt{&Throw{X: &StrLit{V: "T" + strconv.FormatInt(g.probeID(), 10)}}}},
+		&Return{Exprs: []Expr{&Name{N: "loc"}}}}
+	call := func(a, fail int64) Stmt {
+		return &Try{Body: []Stmt{&ExprStmt{X: &Call{Fn: fn, Args: []Expr{&IntLit{V: a}, &IntLit{V: fail}}}}}, CatchVar: "e", Catch: []Stmt{&ExprStmt{X: &Call{Fn: "pc", Args: []Expr{&Name{N: "e"}}}}}}
+	}
+	return []Stmt{
+		&Assign{LHS: []Expr{holder}, RHS: []Expr{&NilLit{}}},
+		&ExprStmt{X: &FuncLit{Name: fn, Params: []string{"q0", "q1"}, Body: body}},
+		call(1, 1), &Assign{LHS: []Expr{&Name{N: h1}}, RHS: []Expr{holder}},
+		call(2, int64(g.R.Intn(2))), &Assign{LHS: []Expr{&Name{N: h2}}, RHS: []Expr{holder}},
+		call(3, 0),
+		&ExprStmt{X: &Call{Fn: "rd", Args: []Expr{&StrLit{V: h1}, &Call{Fn: h1}}}},
+		&ExprStmt{X: &Call{Fn: "rd", Args: []Expr{&StrLit{V: h2}, &Call{Fn: h2}}}},
+		&ExprStmt{X: &Call{Fn: "rd", Args: []Expr{&StrLit{V: "ehold"}, &Call{Fn: "ehold"}}}},
+	}
+}
+
+// deferLocalClosureTwice: `defer name()` where name is a closure local to the
+// invocation, in a function invoked twice (and in a loop that rebinds the name):
+// each execution of the defer statement defers the function the name denotes then
+func (g *G) deferLocalClosureTwice(c ctx) []Stmt {
+	g.feat("defer-local-closure-twice")
+	fn := g.fresh("dt")
+	body := []Stmt{
+		&Assign{LHS: []Expr{&Name{N: "cleanup"}}, RHS: []Expr{&FuncLit{Body: []Stmt{&ExprStmt{X: &Call{Fn: "h2", Args: []Expr{&IntLit{V: g.probeID()}, &Name{N: "q0"}}}}, &Return{Exprs: []Expr{&IntLit{V: 0}}}}}}},
+		&Defer{C: &Call{Fn: "cleanup"}},
+		&ExprStmt{X: g.p()},
+		&Return{Exprs: []Expr{&Name{N: "q0"}}}}
+	if g.R.Intn(2) == 0 {
+		// rebinding between two executions of the same defer statement in a loop
+		cnt := g.fresh("n")
+		body = []Stmt{
+			&CFor{Init: &VarStmt{Names: []string{cnt}, Exprs: []Expr{&IntLit{V: 0}}}, Cond: &Binary{Op: "<", L: &Name{N: cnt}, R: &IntLit{V: 2}}, Post: &OpAssign{Target: &Name{N: cnt}, Op: "+"},
+				Body: []Stmt{
+					&VarStmt{Names: []string{"tag"}, Exprs: []Expr{&Binary{Op: "+", L: &Binary{Op: "*", L: &Name{N: "q0"}, R: &IntLit{V: 10}}, R: &Name{N: cnt}}}},
+					&Assign{LHS: []Expr{&Name{N: "cleanup"}}, RHS: []Expr{&FuncLit{Body: []Stmt{&ExprStmt{X: &Call{Fn: "h1", Args: []Expr{&Name{N: "tag"}}}}, &Return{Exprs: []Expr{&IntLit{V: 0}}}}}}},
+					&Defer{C: &Call{Fn: "cleanup"}}}},
+			&Return{Exprs: []Expr{&Name{N: "q0"}}}}
+	}
+	return []Stmt{
+		&ExprStmt{X: &FuncLit{Name: fn, Params: []string{"q0"}, Body: body}},
+		&ExprStmt{X: &Call{Fn: "rd", Args: []Expr{&StrLit{V: fn}, &Call{Fn: fn, Args: []Expr{&IntLit{V: 1}}}}}},
+		&ExprStmt{X: &Call{Fn: "rd", Args: []Expr{&StrLit{V: fn}, &Call{Fn: fn, Args: []Expr{&IntLit{V: 2}}}}}},
+	}
+}
+
+// callbackThrows: a script function handed to Go as a result-less callback fails:
+// the error surfaces as the error of the enclosing call, nothing after it runs
+func (g *G) callbackThrows(c ctx) []Stmt {
+	g.feat("callback-error")
+	var fail Stmt = &Throw{X: &StrLit{V: "T" + strconv.FormatInt(g.probeID(), 10)}}
+	if g.R.Intn(3) == 0 {
+		fail = &ExprStmt{X: g.failExpr()}
+	}
+	var call Expr
+	if g.R.Intn(2) == 0 {
+		call = &Call{Fn: "hcb", Args: []Expr{&FuncLit{Body: []Stmt{&ExprStmt{X: g.p()}, fail, &ExprStmt{X: g.p()}}}}}
+	} else {
+		call = &Call{Fn: "heach", Args: []Expr{&ListLit{Elems: []Expr{&IntLit{V: 1}, &IntLit{V: 2}, &IntLit{V: 3}}},
+			&FuncLit{Params: []string{"q"}, Body: []Stmt{&ExprStmt{X: &Call{Fn: "h1", Args: []Expr{&Name{N: "q"}}}},
+				&If{Cond: &Binary{Op: "==", L: &Name{N: "q"}, R: &IntLit{V: int64(1 + g.R.Intn(3))}}, Then: []Stmt{fail}}}}}}
+	}
+	if g.R.Intn(3) == 0 {
+		return []Stmt{&ExprStmt{X: call}, &ExprStmt{X: g.p()}}
+	}
+	return []Stmt{&Try{Body: []Stmt{&ExprStmt{X: call}, &ExprStmt{X: g.p()}}, CatchVar: "e", Catch: []Stmt{&ExprStmt{X: &Call{Fn: "pc", Args: []Expr{&Name{N: "e"}}}}}},
+		&ExprStmt{X: g.p()}}
 }
 
 // control statements directly inside a try body hit the listed known finding;
@@ -495,10 +627,16 @@ func (g *G) loop(c ctx) []Stmt {
 	case 2, 3: // C-style
 		g.feat("loop-cfor")
 		s := &CFor{}
-		if g.R.Intn(2) == 0 {
+		var pre []Stmt
+		switch g.R.Intn(5) {
+		case 0, 1:
 			s.Init = &VarStmt{Names: []string{cnt}, Exprs: []Expr{&IntLit{V: 0}}}
-		} else {
+		case 2, 3:
 			s.Init = &Assign{LHS: []Expr{&Name{N: cnt}}, RHS: []Expr{&IntLit{V: 0}}}
+		default:
+			// no init statement: the counter lives outside, the loop still has its own scope
+			g.feat("loop-cfor-no-init")
+			pre = []Stmt{&Assign{LHS: []Expr{&Name{N: cnt}}, RHS: []Expr{&IntLit{V: 0}}}}
 		}
 		s.Cond = &Binary{Op: "<", L: &Name{N: cnt}, R: &IntLit{V: n}}
 		if g.R.Intn(10) == 0 {
@@ -512,7 +650,7 @@ func (g *G) loop(c ctx) []Stmt {
 			s.Post = &OpAssign{Target: &Name{N: cnt}, Op: "+"}
 		}
 		s.Body = g.scoped(func() []Stmt { return g.block(lc, 1+g.R.Intn(3)) })
-		return []Stmt{s}
+		return append(pre, s)
 	default: // for-in over a list
 		g.feat("loop-forin-list")
 		v := g.pick(g.pool)
@@ -566,7 +704,22 @@ func (g *G) switchStmt(c ctx) []Stmt {
 	for i := 0; i < nc; i++ {
 		cs := Case{}
 		for j := 1 + g.R.Intn(2); j > 0; j-- {
-			cs.Exprs = append(cs.Exprs, &IntLit{V: int64(g.R.Intn(6))})
+			var ce Expr = &IntLit{V: int64(g.R.Intn(6))}
+			switch g.R.Intn(8) {
+			case 0:
+				// case expressions are compared in order, each evaluated when its turn comes
+				g.feat("switch-nonliteral-case")
+				ce = &Call{Fn: "pv", Args: []Expr{&IntLit{V: g.probeID()}, &IntLit{V: int64(g.R.Intn(6))}}}
+			case 1:
+				if dp := g.definedPool(); len(dp) > 0 {
+					g.feat("switch-nonliteral-case")
+					ce = &Name{N: g.pick(dp)}
+				}
+			case 2:
+				g.feat("switch-nonliteral-case")
+				ce = &Unary{Op: "-", X: &IntLit{V: int64(-g.R.Intn(6))}}
+			}
+			cs.Exprs = append(cs.Exprs, ce)
 		}
 		if len(cs.Exprs) > 1 {
 			g.feat("switch-multi-case")
@@ -610,7 +763,13 @@ func (g *G) tryStmt(c ctx) []Stmt {
 		if g.Prof == ProfScope || g.R.Intn(3) == 0 {
 			ss = append(ss, g.ReadBacks()...)
 		}
-		return append(ss, g.block(cc, g.R.Intn(3))...)
+		ss = append(ss, g.block(cc, g.R.Intn(3))...)
+		if s.CatchVar != "" && g.R.Intn(8) == 0 && (len(ss) == 0 || !isAbrupt(ss[len(ss)-1])) {
+			// rethrow of the caught error
+			g.feat("rethrow")
+			ss = append(ss, &Throw{X: &Name{N: "e"}})
+		}
+		return ss
 	})
 	var out []Stmt
 	if s.CatchVar != "" && g.R.Intn(4) == 0 {
@@ -653,6 +812,7 @@ func (g *G) returnStmt() []Stmt {
 func (g *G) funcDef(c ctx) []Stmt {
 	g.feat("func")
 	name := g.fresh("f")
+	g.nestedFuncs = append(g.nestedFuncs, nestedFunc{name, c.depth})
 	np := g.R.Intn(4)
 	if g.R.Intn(6) == 0 {
 		np = 5 + g.R.Intn(2) // reflect call path
